@@ -234,6 +234,12 @@ def emit_enum_decl(d, name="E"):
             vs.append(f"{pre}V{i} = -1")
         elif mal == 'constref' and i == len(ds) - 1:
             vs.append(f"{pre}V{i} = K")
+        elif mal == 'paren' and i == len(ds) - 1:
+            vs.append(f"{pre}V{i} = ({x})")              # a parenthesised literal is an expression, not an integer literal
+        elif mal == 'cast' and i == len(ds) - 1:
+            vs.append(f"{pre}V{i} = {x} as isize")
+        elif mal == 'block' and i == len(ds) - 1:
+            vs.append(f"{pre}V{i} = {{ {x} }}")
         else:
             lit = hex(x) if (x > 9 and (x + i) % 2) else str(x)
             vs.append(f"{pre}V{i} = {lit}")
@@ -297,7 +303,7 @@ def c10_declarations(tier):
         for exh, sep in EXH[:4]:
             out.append((f"u{n}", (0, 0), exh, sep, None, None))
             out.append((f"u{n}", (1, 0, 1), exh, sep, None, None))
-            for mal in ('missing', 'nonlit', 'neg', 'constref'):
+            for mal in ('missing', 'nonlit', 'neg', 'constref', 'paren', 'cast', 'block'):
                 out.append((f"u{n}", (0, 1), exh, sep, None, mal))
             if exh != 'conditional':
                 # (under `conditional` the outcome for cfg_attr-gated variants is not determined by the property)
@@ -426,6 +432,25 @@ def bld_families():
                 S(16, [_mk(k1, 0), _mk(k2, 8)], dflt, "PAIRS")
             for k3 in ('multi', 'arr'):
                 S(32, [_mk(k1, 0), _mk(k2, 8), _mk(k3, 16)], 0, "PAIRS")
+    # two writable fields that share bits in exactly one place: the first / a middle / the last element of an array, the first / middle /
+    # last range of a list, in both declaration orders (no builder may be offered), next to the disjoint neighbour (builder offered)
+    for e in (0, 1, 2, 3):
+        for order in (0, 1):
+            for dflt in (None, 0):
+                A = lambda: Field([(4 * e, 4)], 'u')
+                B = lambda: Field([(0, 4)], 'u', arr=(3, 4), stride_explicit=False)            # elements at 0..3, 4..7, 8..11
+                S(16, [A(), B()] if order else [B(), A()], dflt, "OVERLAP2")
+                A2 = lambda: Field([(min(5 * e, 13), 2)], 'u')
+                B2 = lambda: Field([(0, 2), (5, 2), (10, 2)], 'u')                              # ranges at 0..1, 5..6, 10..11
+                S(16, [A2(), B2()] if order else [B2(), A2()], dflt, "OVERLAP2")
+                A3 = lambda: Field([(e, 1)], 'b')
+                B3 = lambda: Field([(0, 1)], 'b', arr=(3, 1), stride_explicit=False)
+                S(8, [A3(), B3()] if order else [B3(), A3()], dflt, "OVERLAP2")
+    for sh in (4, 8, 12):
+        for order in (0, 1):
+            X = lambda: Field([(0, 4)], 'u', arr=(2, 4), stride_explicit=False)
+            Y = lambda: Field([(sh, 4)], 'u', arr=(2, 4), stride_explicit=False) if sh + 8 <= 16 else Field([(sh, 4)], 'u')
+            S(16, [X(), Y()] if order else [Y(), X()], 0, "OVERLAP2")
     # self-overlapping range lists (non-array) and their disjoint neighbours, on u4 and u8
     for n in (4, 8):
         rs = [(lo, l) for lo in range(0, n) for l in range(1, n - lo + 1) if l <= 4]
@@ -617,6 +642,7 @@ def c17_structs(tier):
                         continue
                     f.access = acc
                     f.name = "f0"
+                    f.family = 'F0'
                     fs = [f]
                     if second and f.top() < n:
                         g = Field([(n - 1, 1)], 'b', access='rw', name="g")
@@ -630,18 +656,32 @@ def c17_structs(tier):
                         import dataclasses
                         fd = [dataclasses.replace(x) for x in fs]
                         out.append((kname + "+debug", Struct(n, fd, default=1, name="S", family=f"API:{kname}+debug", debug=True)))
+        # field names: raw identifiers (the accessors are `r#type()`, `with_type`, `set_type`), names that begin like a raw-identifier
+        # prefix, and names that look like generated method names
+        if n in (8, 32):
+            for kname, mk in kinds[:2] + kinds[4:5]:
+                for nm in ("r#ref", "r#return", "r#type", "reserved", "rw", "r_", "with", "build"):
+                    for acc in ('r', 'w', 'rw', ''):
+                        f = mk()
+                        f.access = acc
+                        f.name = nm
+                        f.family = 'F0'
+                        g = Field([(n - 1, 1)], 'b', access='rw', name="g")
+                        out.append((kname + ":" + nm, Struct(n, [f, g] if len(nm) % 2 else [g, f], default=1, name="S", family=f"API:{kname}:{nm}", keep_names=True)))
     return out
 
 
 def c17_probes(s: Struct):
-    f = [x for x in s.fields if x.name == "f0"][0]
+    f = [x for x in s.fields if x.family == 'F0'][0]
+    gname = f.name                                   # the getter carries the field's name as written (`r#type`)
+    bname = f.name[2:] if f.name.startswith("r#") else f.name      # with_/set_ names are built from the bare identifier
     idx = "0, " if f.arr else ""
     idxg = "0" if f.arr else ""
     v = any_arg(f)
     ps = []
-    ps.append(("get", f"pub fn p_get(s: S) {{ let _ = s.f0({idxg}); }}", f.readable))
-    ps.append(("with", f"pub fn p_with(s: S) {{ let _ = s.with_f0({idx}{v}); }}", f.writable))
-    ps.append(("set", f"pub fn p_set(mut s: S) {{ s.set_f0({idx}{v}); }}", f.writable))
+    ps.append(("get", f"pub fn p_get(s: S) {{ let _ = s.{gname}({idxg}); }}", f.readable))
+    ps.append(("with", f"pub fn p_with(s: S) {{ let _ = s.with_{bname}({idx}{v}); }}", f.writable))
+    ps.append(("set", f"pub fn p_set(mut s: S) {{ s.set_{bname}({idx}{v}); }}", f.writable))
     # builder: steps exist exactly for the writable fields, in declaration order
     chain = ""
     for x in s.fields:
@@ -649,13 +689,13 @@ def c17_probes(s: Struct):
             a = any_arg(x)
             if x.arr:
                 a = "[" + ", ".join([a] * x.arr[0]) + "]"
-            if x.name == "f0":
+            if x is f:
                 step_prefix = chain
                 f0arg = a
-            chain += f".with_{x.name}({a})"
+            chain += f".with_{x.name[2:] if x.name.startswith('r#') else x.name}({a})"
     ps.append(("bfull", f"pub fn p_bfull() -> S {{ S::builder(){chain}.build() }}", True))
     if f.writable:
-        ps.append(("bstep", f"pub fn p_bstep() {{ let _ = S::builder(){step_prefix}.with_f0({f0arg}); }}", True))
+        ps.append(("bstep", f"pub fn p_bstep() {{ let _ = S::builder(){step_prefix}.with_{bname}({f0arg}); }}", True))
     else:
         a = any_arg(f)
         if f.arr:
@@ -663,13 +703,13 @@ def c17_probes(s: Struct):
         # try the step at every position of the chain
         pre = ""
         k = 0
-        ps.append((f"bstep{k}", f"pub fn p_bstep{k}() {{ let _ = S::builder().with_f0({a}); }}", False))
+        ps.append((f"bstep{k}", f"pub fn p_bstep{k}() {{ let _ = S::builder().with_{bname}({a}); }}", False))
         for x in s.fields:
             if x.writable:
                 aa = any_arg(x)
                 if x.arr:
                     aa = "[" + ", ".join([aa] * x.arr[0]) + "]"
-                pre += f".with_{x.name}({aa})"
+                pre += f".with_{x.name[2:] if x.name.startswith('r#') else x.name}({aa})"
                 k += 1
-                ps.append((f"bstep{k}", f"pub fn p_bstep{k}() {{ let _ = S::builder(){pre}.with_f0({a}); }}", False))
+                ps.append((f"bstep{k}", f"pub fn p_bstep{k}() {{ let _ = S::builder(){pre}.with_{bname}({a}); }}", False))
     return ps
